@@ -85,7 +85,7 @@ def main():
         vals = [f(x) for x in c.split(" V ")[1].split(" ")[1:] if x] if " V " in c else []
         finite_vals = [abs(v) for v in vals if math.isfinite(v)]
         scale = max(finite_vals + [1.0])
-        special = cls == "special" or any(not math.isfinite(v) or abs(v) > 1e100 for v in vals)
+        special = cls == "special" or any(not math.isfinite(v) or abs(v) > 1e100 or (v != 0.0 and abs(v) < 1e-100) for v in vals)
         if special:
             # NaN / inf / 1e300 inputs: Lean's Float has no overflow-safe hypot, so only the discrete,
             # float-independent outputs above (declared ids, row count, panic status) are compared.
